@@ -11,6 +11,9 @@ CHECKS = {
  "C02": ("exploration", "bounded-exhaustive enumeration of expression trees (depth 2 quick / 3 thorough), DSL value vs float evaluation of the same tree",
          "All expression trees to the depth bound over the operator alphabet built through Python's own operator dispatch; each compared in converter context and in stock context (t-dt) under two value bindings; a DSL exception counts as rejected.",
          "Float evaluation of the tree is the oracle; values on discontinuities and ill-conditioned mod are skipped; depth > 3 not covered.", "§4 C02"),
+ "C05": ("exploration", "exhaustive enumeration of a (start, dt, steps) lattice; grid labels compared with == against the Decimal grid on every channel",
+         "Every (start, dt, n) of the lattice (n <= 40 quick, <= 400 thorough): timerange, run_scenarios df/dict/json, plot, stepwise session keys and session_results equal the exact decimal grid label by label; a step-counting stock returns i on every arithmetic route to grid point i.",
+         "dt and start with finite decimal expansions only; the session is begun with the model's own start and dt.", "§4 C05"),
  "C14": ("model_checking", "explicit-state BFS over operation histories on the real Model, dict reference compared on every transition",
          "All create/delete/configure/reset/set_state histories up to depth 5 (quick) / 7 (thorough) over two agent types; every registry query compared with a dict id->(type,state) after every transition.",
          "Agents created through factories whose name equals agent_type; ids offered to delete range over all ids ever issued (live and dead).", "§4 C14"),
